@@ -52,6 +52,8 @@ class Prog:
         self.feature_text = ""
         self.raw_gdl = None
         self.extra_files = {}     # further source files of the program (include files): name -> text
+        self.text_table_order = None   # order in which the rule tables are WRITTEN (indices into self.tables, which keeps
+                                  # the order in which the passes run: substitution before positioning)
         self.pass_split = {}      # (table index, pass index) -> number of rules kept in the main file; the others go to an
                                   # include file that continues the pass (its lines are numbered from 1 again)
         self.gattr = None
@@ -77,7 +79,7 @@ class Prog:
         if self.feature_text:
             out.append(self.feature_text)
         line_no = None
-        for ttype, passes in self.tables:
+        for ttype, passes in ([self.tables[k] for k in self.text_table_order] if self.text_table_order else self.tables):
             out.append("table(%s)" % ttype)
             for pi, rules in enumerate(passes):
                 out.append("pass(%d)" % (pi + 1))
@@ -1018,6 +1020,25 @@ def gen_match_rule(rng, prog, carets=False, no_pre=False):
                 j = min(near, key=lambda j: abs(j - i))
                 it.assoc = [j + 1]
     return r
+
+
+def add_pos_table_first(rng, prog):
+    """A positioning table that uses classes of the substitution rules and is written BEFORE the substitution table."""
+    used = [it.cls for (_t, ps) in prog.tables for rules in ps for r in rules for it in r.items if it.cls not in (None, "ANY", "#")]
+    if not used or any(t == "pos" for t, _ in prog.tables):
+        return
+    rules = []
+    for _ in range(rng.randint(1, 3)):
+        items = []
+        if rng.random() < 0.5:
+            items.append(Item(cls=rng.choice(used)))
+        it = Item(cls=rng.choice(used), mod=True)
+        v = rng.choice([5, 12, -7])
+        it.attrs.append(("shift.x", "=", (str(v) if v >= 0 else "(%d)" % v), {"k": "lit", "v": v}))
+        items.append(it)
+        rules.append(Rule(items))
+    prog.tables.append(("pos", [rules]))
+    prog.text_table_order = [len(prog.tables) - 1] + list(range(len(prog.tables) - 1))
 
 
 def add_pass_splits(rng, prog, prob=0.6):
